@@ -19,6 +19,7 @@ import time
 
 ROOT = os.path.dirname(os.path.dirname(os.path.abspath(__file__)))
 REPO = os.environ.get('VERIF_REPO', '/repo')
+OUT = os.environ.get('VERIF_OUT', ROOT)      # where evidence/ and replays/ are written (redirected when trying seeded changes)
 DRIVER = os.path.join(ROOT, 'build', 'driver')
 GUARD = 'CNFGEN_VERIF'
 PY = '/venv/bin/python'
@@ -299,22 +300,22 @@ class Ctx:
 
     def finish(self, level, proof, rule, extra=None, trusted=None):
         wall = time.time() - self.t0
-        os.makedirs(os.path.join(ROOT, 'replays'), exist_ok=True)
-        os.makedirs(os.path.join(ROOT, 'evidence'), exist_ok=True)
+        os.makedirs(os.path.join(OUT, 'replays'), exist_ok=True)
+        os.makedirs(os.path.join(OUT, 'evidence'), exist_ok=True)
         lines = []
         for hid, h in sorted(self.known_hits.items()):
             lines.append('KNOWN-FINDING: property=%s %s (%d case(s) this run, e.g. %s)' %
                          (self.prop, h['f']['what'], h['n'], json.dumps(h['example'].get('input', h['example']), default=str)[:200]))
         nviol = 0
         import glob
-        for old in glob.glob(os.path.join(ROOT, 'replays', '%s-%s-*.json' % (self.prop, self.tier))):
+        for old in glob.glob(os.path.join(OUT, 'replays', '%s-%s-*.json' % (self.prop, self.tier))):
             try:
                 os.unlink(old)          # replay files of earlier runs of this check
             except OSError:
                 pass
         for i, v in enumerate(self.violations):
             nviol += 1
-            path = os.path.join(ROOT, 'replays', '%s-%s-%d.json' % (self.prop, self.tier, i))
+            path = os.path.join(OUT, 'replays', '%s-%s-%d.json' % (self.prop, self.tier, i))
             rp = dict(property=self.prop, kind=v['kind'], what=v['what'], site=v['site'], input_class=v['cls'],
                       occurrences=v['count'], seed=self.seed, tier=self.tier,
                       failing_input_found=bool(v['found_input']),
@@ -338,7 +339,7 @@ class Ctx:
             cov.update(extra)
         ev = dict(property_id=self.prop, tier=self.tier, seed=self.seed, level=level, coverage=cov,
                   assumptions=self.assumptions, wall_s=round(wall, 2), violations=nviol)
-        with open(os.path.join(ROOT, 'evidence', '%s.json' % self.prop), 'w') as f:
+        with open(os.path.join(OUT, 'evidence', '%s.json' % self.prop), 'w') as f:
             json.dump(ev, f, indent=1, default=str)
         for ln in lines:
             print(ln)
